@@ -97,15 +97,47 @@ def check(pid, tier, seed):
         fl = begin["flags"]
         return "C16:%s:%s" % (ev["e"], "+".join(k for k in ("owner", "group", "nosym") if fl.get(k)) + ("+perms" if fl.get("perms") == "strict" else "") or "afterreset")
     bad = validate_scenarios(events, verdict, "C16", fp)
+    n += settings_across_threads(exe, verdict)
     rc = verdict.finish()
     cov = {"states": mc.distinct, "transitions": mc.generated, "traces_validated_against_impl": n - bad,
            "evaluations": n * 2, "distinct_nontrivial": nn,
-           "rule": "MC_Security: 2-layer trees x every {matching,foreign} owner/group x {regular,symlink} x {ok,bad} permission bits assignment to the consulted files x all 54 settings states reached by the setter actions (owner / group: none, usual id, another id; links; permission masks none / lenient / strict; reset), action property Independent. Traces: %d scenarios over 3-layer (econf_readConfigWithCallback) and 3-layer trees with two drop-in directories per layer (CONFIG_DIRS list, econf_set_conf_dirs) and 2-layer trees (econf_readFile, econf_readFileWithCallback on single files; econf_readDirs, econf_readDirsWithCallback, econf_readDirsHistory(+WithCallback), econf_readConfig(+WithCallback) with PARSING_DIRS; the directory arguments also as RELATIVE names) x the 7 non-empty flag combinations (together with no / a satisfied / a strict econf_requirePermissions requirement - file mode 0640 against the file mask 004, directory mode 0750 against the directory mask 001) x attribute vectors {exactly one file violating one active rule, random vectors, vectors violating only inactive rules}; files are lchown'ed to uid/gid %d resp. replaced by symbolic links; each scenario = setter calls in varying order with overwritten calls mixed in, read, econf_reset_security_settings, read again. Trace_Layers folds the RECORDED setter calls into the settings in force (Security!ApplySetters: every setter changes its own setting only, the last call counts), computes the violations from the logged attributes and accepts only the code of the first failing file, no object, no callback for the refused file, full content after reset. non-trivial = >= 2 consulted files of which exactly one violates an active rule." % (n, p_layers.FOREIGN),
+           "rule": "MC_Security: 2-layer trees x every {matching,foreign} owner/group x {regular,symlink} x {ok,bad} permission bits assignment to the consulted files x all 54 settings states reached by the setter actions (owner / group: none, usual id, another id; links; permission masks none / lenient / strict; reset), action property Independent. Traces: %d scenarios over 3-layer (econf_readConfigWithCallback) and 3-layer trees with two drop-in directories per layer (CONFIG_DIRS list, econf_set_conf_dirs) and 2-layer trees (econf_readFile, econf_readFileWithCallback on single files; econf_readDirs, econf_readDirsWithCallback, econf_readDirsHistory(+WithCallback), econf_readConfig(+WithCallback) with PARSING_DIRS; the directory arguments also as RELATIVE names) x the 7 non-empty flag combinations (together with no / a satisfied / a strict econf_requirePermissions requirement - file mode 0640 against the file mask 004, directory mode 0750 against the directory mask 001) x attribute vectors {exactly one file violating one active rule, random vectors, vectors violating only inactive rules}; files are lchown'ed to uid/gid %d resp. replaced by symbolic links; each scenario = setter calls in varying order with overwritten calls mixed in, read, econf_reset_security_settings, read again. Trace_Layers folds the RECORDED setter calls into the settings in force (Security!ApplySetters: every setter changes its own setting only, the last call counts), computes the violations from the logged attributes and accepts only the code of the first failing file, no object, no callback for the refused file, full content after reset. Plus one scenario across threads: rules set by the main thread gate a worker's reads and vice versa. non-trivial = >= 2 consulted files of which exactly one violates an active rule." % (n, p_layers.FOREIGN),
            "samples": events[:3], "exhaustive": False, "trusted_base": ["TLC 1.8.0", "gcc ASan/UBSan", "drv.c (runs as root)"]}
     core.write_evidence(pid, tier, seed, "model_checking", cov,
                         ["checks run as root; foreign = uid/gid 54321", "econf_requirePermissions is beyond the text of the property; modelled with one strict pair of masks (file 004 / directory 001 against modes 0640 / 0750)", "process-wide flags are reset after every scenario"],
                         time.time() - t0, len(verdict.violations))
     return rc
+
+
+def settings_across_threads(exe, verdict):
+    """The restrictions are process-wide: a rule put in force by one thread gates the reads of every other thread (set by the main
+    thread before a worker starts; set by a worker and met by the main thread afterwards)."""
+    R = ROOT + "/thr16"
+    F = p_layers.FOREIGN
+    worker = ["readfile 1 %s x3d x23" % hx(R + "/foreign.conf"), "free 1", "readfile 2 %s x3d x23" % hx(R + "/own.conf"), "free 2",
+              "readfile 3 %s x3d x23" % hx(R + "/link.conf"), "free 3",
+              "readdirs 4 %s %s %s %s x3d x23" % (hx(R + "/t/usr"), hx(R + "/t/etc"), hx("cfg"), hx("conf")), "free 4"]
+    worker2 = ["requiregroup 0"]
+    sc = ["rm %s" % hx(R), "file %s %s" % (hx(R + "/own.conf"), hx("a=1\n")), "file %s %s" % (hx(R + "/foreign.conf"), hx("a=2\n")), "chown %s %d 0" % (hx(R + "/foreign.conf"), F),
+          "symlink %s %s" % (hx(R + "/own.conf"), hx(R + "/link.conf")), "file %s %s" % (hx(R + "/grp.conf"), hx("a=3\n")), "chown %s 0 %d" % (hx(R + "/grp.conf"), F),
+          "file %s %s" % (hx(R + "/t/etc/cfg.conf"), hx("m=1\n")), "file %s %s" % (hx(R + "/t/etc/cfg.conf.d/f.conf"), hx("d=1\n")), "chown %s %d 0" % (hx(R + "/t/etc/cfg.conf.d/f.conf"), F),
+          "file %s %s" % (hx(R + "/w1.script"), hx("\n".join(worker) + "\n")), "file %s %s" % (hx(R + "/w2.script"), hx("\n".join(worker2) + "\n")),
+          "requireowner 0", "followsymlinks 0", "threads 1 x %s" % hx(R + "/w1.script"), "resetsec",
+          "threads 1 x %s" % hx(R + "/w2.script"), "readfile 5 %s x3d x23" % hx(R + "/grp.conf"), "free 5", "resetsec",
+          "readfile 6 %s x3d x23" % hx(R + "/grp.conf"), "free 6", "cat %s" % hx(R + "/w1.script.out")]
+    out = core.run_cases(exe, [("thr", sc)], jobs=1)["thr"]
+    if out["crash"]:
+        verdict.violation("C16:threads:crash", {"kind": "script", "script": sc, "crash": out["crash"]}, "restrictions across threads: crashed\n" + out["crash"][:600])
+        return 0
+    cat = [e for e in out["ev"] if e["op"] == "cat"][0]
+    w = [json.loads(l) for l in (cat["data"] or "").splitlines() if l.startswith("{")]
+    got = [e["rc"] for e in w if e.get("op", "").startswith("read")] + [e["rc"] for e in out["ev"] if e["op"] == "readfile"]
+    want = ["ECONF_WRONG_OWNER", "ECONF_SUCCESS", "ECONF_ERROR_FILE_IS_SYM_LINK", "ECONF_WRONG_OWNER", "ECONF_WRONG_GROUP", "ECONF_SUCCESS"]
+    if got != want:
+        verdict.violation("C16:threads", {"kind": "script", "script": sc, "got": got, "want": want},
+                          "restrictions set by one thread and met by another: worker under the main thread's owner / no-link rules read [foreign file, own file, link, tree with a foreign drop-in] -> %s; main thread under the worker's group rule, then after reset -> %s; expected %s" % (got[:4], got[4:], want))
+        return 0
+    return 1
 
 
 def replay(pid, path):
